@@ -300,6 +300,17 @@ def run(sim, sc):
         raise ValueError(flavour)
     pipeline = None
     _check(sim, sc, outs, raised, stopped)
+    # sync flavour, deterministic finalisation (exhausted / raised / close() / last reference dropped): everything the pipeline
+    # started must have exited by the time the consuming statement returns - no grace period
+    if flavour == 'sync' and not (stopped and sc['stop']['mode'] == 'gc'):
+        alive0 = [t for t in sim.threads if t.idx not in harness_threads and t.state not in ('done', 'dead')
+                  and not thread_label(t).startswith('harness-pool')]
+        running = sum(f.running for f in fns.values() if not any(st['op'] == 'fifo' for st in sc['stages']))
+        if alive0 or running:
+            import re
+            names = sorted(set(re.sub(r'[-_]?\d+', '', thread_label(t)) for t in alive0))
+            sim.violation('leak:still-running-when-the-iterator-was-closed:' + ','.join(names) + (':calls-in-flight' if running else ''),
+                          {'threads': [thread_label(t) for t in alive0], 'worker_function_invocations_in_flight': running})
     for p in cleanup:
         p.shutdown(wait=False, cancel_futures=True)
     # ---------------- leak oracle: everything the pipeline started must be gone after a grace period
